@@ -648,6 +648,11 @@ def dde_models():
                                   "t2": dict(ops=["tg"], over={"tg/tau": 2.0})},
                       [edge("p1/op/r", "t1/tg/u", 1.0, 0.3), edge("p1/op/r", "t2/tg/u", 2.0, 0.004), edge("p2/op/r", "p1/op/r_in", -0.5, 0.5),
                        edge("t1/tg/v", "p2/op/r_in", 0.8)])))
+    # an edge delay of exactly 1.0 time units (the value the implementation uses internally as "no delay" placeholder, as an integer)
+    out.append(("H11-edge-delay-exactly-one", dict(edges=True),
+                model([pop, tg], {"p1": dict(ops=["op"]), "t1": dict(ops=["tg"])}, [edge("p1/op/r", "t1/tg/u", 1.5, 1.0), edge("t1/tg/v", "p1/op/r_in", -0.5)])))
+    out.append(("H12-edge-delay-integer-one", dict(edges=True, int_delay_one=True),
+                model([pop, tg], {"p1": dict(ops=["op"]), "t1": dict(ops=["tg"])}, [edge("p1/op/r", "t1/tg/u", 1.5, 1), edge("t1/tg/v", "p1/op/r_in", -0.5)])))
     # negative coefficient in front of a delayed term inside a sum (printing of ` - 2.0*past(...)`)
     d7 = dict(name="d7", eqs=[["x", "de", ["-", V("z"), V("x")]],
                               ["z", "de", ["-", V("x"), ["*", N(2.0), ["past", "z", 0.5]]]]],
@@ -691,7 +696,7 @@ def c12_models():
     for t, f, m in dde_models():
         if t.startswith("H7"):
             continue        # cannot be compiled at all on the pinned tree (known finding KF-C10-negative-coefficient-delayed-term)
-        if t.startswith(("H9", "H10")):
+        if t.startswith(("H9", "H10", "H11", "H12")):
             continue        # fixed-step compilation of these uses a ring buffer that is read one call late (KF-C09): the compiled
             #                 function is stateful between calls, so finite differences of it are not a derivative
         out.append((t, dict(f, dde=True), m))
